@@ -492,6 +492,38 @@ def run(c):
         c.count(("whint", n, kind, soft != 0), nontrivial=n >= 3)
         hist["whint"] = hist.get("whint", 0) + 1
 
+    # ======================================================================= tie: reb_whfast_jump_step (DH, WHDS) and reb_whfast_com_step
+    for case in range(60 * T):
+        rng = c.rng.fork()
+        kindj = ("dh", "whds", "com")[case % 3]
+        n = rng.choice([1, 2, 2, 3, 3, 4, 5, 8, 16])
+        ps, kind = gen_parts(rng, n)
+        for p_ in ps:
+            p_[0] = abs(p_[0]) if p_[0] != 0 else 0.0
+        if ps[0][0] == 0:
+            ps[0][0] = 1.0
+        na = -1 if (n < 3 or rng.chance(0.5)) else rng.randint(2, n - 1)
+        tp = rng.randint(0, 1)
+        simW = mk(ps, integrator="whfast", na=na, tp=tp)
+        simW.ri_whfast.coordinates = {"dh": "democraticheliocentric", "whds": "whds", "com": rng.choice(["jacobi", "democraticheliocentric", "whds", "barycentric"])}[kindj]
+        simW.dt = dtw = rng.uniform(-1e-1, 1e-1)
+        if clib.reb_integrator_whfast_init(ctypes.byref(simW)):
+            continue
+        clib.reb_integrator_whfast_from_inertial(ctypes.byref(simW))
+        pj = simW.ri_whfast._p_jh
+        nact = n if (na == -1 or tp == 1) else na
+        toks = ["whjump", kindj, str(n), str(nact), d2h(dtw)]
+        for i in range(n):
+            toks += [d2h(v) for v in (simW.particles[i].m, pj[i].x, pj[i].y, pj[i].z, pj[i].vx, pj[i].vy, pj[i].vz)]
+        if kindj == "com":
+            clib.reb_whfast_com_step(ctypes.byref(simW), ctypes.c_double(dtw))
+        else:
+            clib.reb_whfast_jump_step(ctypes.byref(simW), ctypes.c_double(dtw))
+        got = [v for i in range(n) for v in (pj[i].x, pj[i].y, pj[i].z)]
+        lines.append(" ".join(toks)); expect.append(got); meta.append(("whjump:" + kindj, n, na, tp))
+        c.count(("whjump", kindj, n, na != -1, tp), nontrivial=n >= 3 or kindj == "com")
+        hist["whjump:" + kindj] = hist.get("whjump:" + kindj, 0) + 1
+
     c.log("running %d model lines through drv_c04" % len(lines))
     out = run_driver(exe, lines)
     st = {"bitwise_equal": 0, "within_tol": 0, "disagree": 0}
